@@ -1,18 +1,19 @@
 package main
 
-// Parallel deletions inside one retention pass (fracmanager.go shrinkSizes starts one goroutine per
-// outsider): the interleaved operation log of a real pass over 2-4 outsiders is compared with the
-// model's per-fraction programs (CParLog); every crash point of the observed interleaving and of
-// re-orderings of it (operations of different fractions are independent; the per-fraction order is
-// kept) is rebuilt with crashfs, a real child is started on it, and what it serves is compared with
-// the model's loader and the specification (CPar). The refutation of "oldest first right after a
-// restart" (C15_parallel_retention_prefix_at_restart_refuted / _prefix_eventually_refuted) is
-// replayed on the real code: gapWitness.
+// Deletions of one retention pass over several outsiders (fracmanager.go shrinkSizes; since fix 14be38b ONE
+// goroutine deletes the outsiders one after another, oldest first; before it one goroutine per outsider).
+// The operation log of a real pass over 2-4 outsiders is compared with the model's per-fraction programs
+// and must be sequential: an operation of an older outsider after one of a newer outsider is a violation
+// (CParLog). Every crash point of the observed log is rebuilt with crashfs, a real child is started on it,
+// and what it serves is compared with the model's loader and the specification, "the fractions gone are a
+// prefix of the creation order" included (CPar). Re-orderings of the log are NOT explored: the repaired code
+// cannot produce them (the model of the old code, drun_v0, could: C15_..._v0_refuted).
+// Regression class retention-crash-newer-gone-older-served (gapRegress): the witness history of the repaired
+// defect (sizes a < b, c and limit a + c), every crash point of its pass, restart AND next real pass.
 
 import (
 	"fmt"
 	"os"
-	"sort"
 	"strings"
 	"sync"
 
@@ -79,56 +80,6 @@ func logStrings(log []logEntry, names []string) []string {
 	out := make([]string, len(log))
 	for i, e := range log {
 		out[i] = fmt.Sprintf("%s: %s", names[e.Frac], e.X.String())
-	}
-	return out
-}
-
-// merge orders: every result keeps the per-fraction order of the observed log
-func (d *driver) reorderings(log []logEntry, nfr int) map[string][]logEntry {
-	per := make([][]logEntry, nfr)
-	for _, e := range log {
-		per[e.Frac] = append(per[e.Frac], e)
-	}
-	out := map[string][]logEntry{}
-	var seq, rev, rr []logEntry
-	for i := 0; i < nfr; i++ {
-		seq = append(seq, per[i]...)
-	}
-	for i := nfr - 1; i >= 0; i-- {
-		rev = append(rev, per[i]...)
-	}
-	for j := 0; ; j++ {
-		any := false
-		for i := nfr - 1; i >= 0; i-- {
-			if j < len(per[i]) {
-				rr = append(rr, per[i][j])
-				any = true
-			}
-		}
-		if !any {
-			break
-		}
-	}
-	out["oldest-first"], out["newest-first"], out["round-robin"] = seq, rev, rr
-	nr := 1
-	if d.tier != "quick" {
-		nr = 3
-	}
-	for r := 0; r < nr; r++ {
-		pos := make([]int, nfr)
-		var m []logEntry
-		for len(m) < len(log) {
-			var live []int
-			for i := range per {
-				if pos[i] < len(per[i]) {
-					live = append(live, i)
-				}
-			}
-			i := live[d.r.Intn(len(live))]
-			m = append(m, per[i][pos[i]])
-			pos[i]++
-		}
-		out[fmt.Sprintf("random-%d", r)] = m
 	}
 	return out
 }
@@ -215,18 +166,13 @@ func (d *driver) parExplore(h *history) {
 		}
 	}
 	if switches >= len(touched) {
-		d.w.Count("par_observed_logs_interleaved")
+		d.w.Count("par_observed_logs_not_sequential")
 	}
 	if len(log) > 0 && len(touched) > 1 && log[0].Frac != 0 {
 		d.w.Count("par_observed_newer_goroutine_first")
 	}
-	orders := d.reorderings(log, len(created))
+	orders := map[string][]logEntry{"observed": log}
 	names := []string{"observed"}
-	for n := range orders {
-		names = append(names, n)
-	}
-	sort.Strings(names[1:])
-	orders["observed"] = log
 	seen := map[string]bool{}
 	var jobs []*parJob
 	for _, on := range names {
@@ -316,21 +262,20 @@ func (d *driver) parExplore(h *history) {
 		} else {
 			d.w.Count("restart_died")
 		}
-		class := "par:crash-observed-order"
-		if j.order != "observed" {
-			class = "par:crash-reordered"
-		}
+		class := "par:crash-in-pass"
 		term := fmt.Sprintf("CPar %s %s %s %d %s %d [%s] %s", casefile.Bool(h.Sorted), dirS, kindsS, k, coqLog(j.log), j.n, strings.Join(stC, "; "), impl)
 		d.w.Add(term, class, j.n > 0 && j.n < len(j.log), input(j.order, j.log, j.n), implJ)
 	}
 }
 
-// gapWitness replays the model's refutation on the real code: three fractions of sizes a < b and c, limit
-// a + c: the real pass pushes out the two oldest; the crash state "the newer outsider has renamed its first
-// file to .del, the older one has not started" is rebuilt from the traced operations; a real process is
-// started on it and runs the next real retention pass with the same limit.
-func (d *driver) gapWitness(sorted bool) {
-	h := &history{ID: fmt.Sprintf("G-%v", sorted), Sorted: sorted, Steps: []step{{Op: "bulk", N: 1}, {Op: "seal"}, {Op: "bulk", N: 14}, {Op: "seal"},
+// gapRegress: permanent regression class of fix 14be38b. Three fractions of sizes a < b and c, limit a + c:
+// the real pass pushes out the two oldest. For every crash point of the traced pass the directory is
+// rebuilt, a real process is started on it, reports its fractions and sizes, runs the next real retention
+// pass with the same limit and reports what it lists then. Before the fix the goroutine of the newer
+// outsider could run first: the older fraction stayed served next to the deleted newer one and the next
+// pass did not remove it (sizes [1309 1509 196], limit 1505).
+func (d *driver) gapRegress(sorted bool, rep int) {
+	h := &history{ID: fmt.Sprintf("G%d-%v", rep, sorted), Sorted: sorted, Steps: []step{{Op: "bulk", N: 1}, {Op: "seal"}, {Op: "bulk", N: 14}, {Op: "seal"},
 		{Op: "bulk", N: 2}, {Op: "shrink", Drop: 2, AddFirst: true}}}
 	if !d.execHistory(h) {
 		return
@@ -339,100 +284,152 @@ func (d *driver) gapWitness(sorted bool) {
 	ci := len(h.Calls) - 1
 	c := h.Calls[ci]
 	if c.Err != "" || c.Step.Op != "shrink" || len(c.Before) != 3 || len(c.After) != 1 {
-		d.w.Count("gap_witness_not_applicable")
+		d.w.Count("gap_regress_not_applicable")
 		return
 	}
 	lo, hi := h.window(ci)
+	if hi > len(h.Trace.Ops) {
+		hi = len(h.Trace.Ops)
+	}
 	created := h.created(lo)
 	if len(created) != 3 {
-		d.w.Count("gap_witness_not_applicable")
+		d.w.Count("gap_regress_not_applicable")
 		return
 	}
-	st := h.Trace.StateAt(lo)
-	var applied []string
-	for k := lo; k < hi && k < len(h.Trace.Ops); k++ {
-		o := h.Trace.Ops[k]
-		f, x, ok := project(o)
-		if !ok {
-			if o.Kind != crashfs.Mark {
-				st.Apply(o)
-			}
-			continue
-		}
-		if f != created[1] {
-			continue
-		}
-		st.Apply(o)
-		applied = append(applied, x.String())
-		if x.K == "rename" {
-			break
-		}
+	idx := map[string]int{}
+	for i, f := range created {
+		idx[f] = i
 	}
+	base := h.Trace.StateAt(lo)
+	before := fileSets(base.FileNames())
 	docs := h.docsAt(lo)
-	dir := d.newDir()
-	defer os.RemoveAll(dir)
-	if err := st.Materialize(dir); err != nil {
-		d.w.Count("harness_errors")
-		return
-	}
-	ch, err := storectl.Start("")
-	if err != nil {
-		d.w.Count("harness_errors")
-		return
-	}
-	defer ch.Close()
-	ch.Timeout = 60 * 1e9
-	if _, e := ch.Call(openReq(dir, sorted)); e != nil {
-		d.w.Violate("gap-witness:restart-died", "restart on the witness crash state failed: "+e.Error(), h.desc())
-		return
-	}
-	ex := fmt.Sprintf(`{"limit":%d}`, c.Limit)
-	r, e := ch.Call(storectl.Req{Op: "c15.shrink", Extra: []byte(ex)})
-	if e != nil {
-		d.w.Violate("gap-witness:pass-failed", "the retention pass after the restart failed: "+e.Error(), h.desc())
-		return
-	}
-	after := extraInfos(r)
-	listed := map[string]bool{}
-	for _, f := range after {
-		listed[f.Name] = true
-	}
-	// documents of the older fraction still answered?
-	req := storectl.Req{Op: "fetch"}
-	var want []doc
+	nExp := map[string]int{}
 	for _, x := range docs {
-		if x.Frac == created[0] || x.Frac == created[1] {
-			req.IDs = append(req.IDs, [2]uint64{x.MID, x.RID})
-			want = append(want, x)
-		}
+		nExp[x.Frac]++
 	}
-	fr, e := ch.Call(req)
-	servedOld, servedNew := 0, 0
-	if e == nil {
-		for i, x := range want {
-			if i < len(fr.DocsHex) && len(fr.DocsHex[i]) > 0 {
-				if x.Frac == created[0] {
-					servedOld++
-				} else {
-					servedNew++
-				}
+	doomed := h.doomedAt(lo)
+	var log []logEntry
+	var others []crashfs.Op
+	for k := lo; k < hi; k++ {
+		o := h.Trace.Ops[k]
+		if f, x, ok := project(o); ok {
+			if i, known := idx[f]; known {
+				log = append(log, logEntry{Frac: i, X: x, Op: o})
+				continue
 			}
 		}
-	}
-	d.w.Count("gap_witness_replayed")
-	if listed[created[0]] && !listed[created[1]] && servedOld > 0 && servedNew == 0 {
-		var sizes []uint64
-		for _, f := range c.Before {
-			sizes = append(sizes, f.Full)
+		if o.Kind != crashfs.Mark {
+			others = append(others, o)
 		}
-		d.w.Violate("retention-crash-newer-gone-older-served",
-			"crash inside a retention pass over two outsiders (the goroutine of the NEWER one had renamed its first file to .del, the older one had not started): "+
-				"after the restart AND the next retention pass with the same limit the OLDER fraction is still listed and its documents are served while the NEWER one is gone "+
-				"(not oldest-first; Coq: C15_parallel_retention_prefix_at_restart_refuted, C15_parallel_retention_prefix_eventually_refuted)",
-			map[string]any{"history": h.desc(), "sizes_before_pass": sizes, "limit": c.Limit, "fractions": created,
-				"operations_applied_before_crash": applied, "listed_after_restart_and_next_pass": after,
-				"documents_served_older": servedOld, "documents_served_newer": servedNew})
-	} else {
-		d.w.Count("gap_witness_not_reproduced")
 	}
+	kindOfFrac := map[string]string{}
+	for _, o := range c.Before {
+		kindOfFrac[o.Name] = o.Kind
+	}
+	var dirC, kindsC []string
+	var dirJ []map[string]any
+	for _, f := range created {
+		dirC = append(dirC, d.fracstCoq(before[f], nExp[f] > 0, doomed[f]))
+		kindsC = append(kindsC, lkindCoq(kindOfFrac[f]))
+		dirJ = append(dirJ, map[string]any{"name": f, "files": before[f], "docs": nExp[f], "listed": kindOfFrac[f]})
+	}
+	dirS, kindsS := "["+strings.Join(dirC, "; ")+"]", "["+strings.Join(kindsC, "; ")+"]"
+	var sizesBefore []uint64
+	for _, f := range c.Before {
+		sizesBefore = append(sizesBefore, f.Full)
+	}
+	type job struct {
+		n      int
+		state  *crashfs.State
+		sizes  []uint64
+		served []bool
+		after  []fracObs
+		err    string
+		harn   error
+	}
+	var jobs []*job
+	for n := 0; n <= len(log); n++ {
+		st := base.Clone()
+		for _, o := range others {
+			st.Apply(o)
+		}
+		for _, e := range log[:n] {
+			st.Apply(e.Op)
+		}
+		jobs = append(jobs, &job{n: n, state: st})
+	}
+	var wg sync.WaitGroup
+	sem := make(chan struct{}, extWorkers)
+	for _, j := range jobs {
+		wg.Add(1)
+		sem <- struct{}{}
+		go func(j *job) {
+			defer wg.Done()
+			defer func() { <-sem }()
+			dir := d.newDir()
+			defer os.RemoveAll(dir)
+			if err := j.state.Materialize(dir); err != nil {
+				j.harn = err
+				return
+			}
+			ch, err := storectl.Start("")
+			if err != nil {
+				j.harn = err
+				return
+			}
+			defer ch.Close()
+			ch.Timeout = 60 * 1e9
+			if _, e := ch.Call(openReq(dir, sorted)); e != nil {
+				j.err = "restart: " + e.Error()
+				return
+			}
+			r0, e := ch.Call(storectl.Req{Op: "c15.info"})
+			if e != nil {
+				j.err = "info: " + e.Error()
+				return
+			}
+			size := map[string]uint64{}
+			for _, f := range extraInfos(r0) {
+				size[f.Name] = f.Full
+			}
+			r, e := ch.Call(storectl.Req{Op: "c15.shrink", Extra: []byte(fmt.Sprintf(`{"limit":%d}`, c.Limit))})
+			if e != nil {
+				j.err = "retention pass after the restart: " + e.Error()
+				return
+			}
+			j.after = extraInfos(r)
+			listed := map[string]bool{}
+			for _, f := range j.after {
+				listed[f.Name] = true
+			}
+			for _, f := range created {
+				j.sizes = append(j.sizes, size[f])
+				j.served = append(j.served, listed[f])
+			}
+		}(j)
+	}
+	wg.Wait()
+	for _, j := range jobs {
+		in := map[string]any{"history": h.desc(), "fractions": dirJ, "sizes_before_pass": sizesBefore, "limit": c.Limit,
+			"log": logStrings(log, created), "crash_after_ops": j.n}
+		if j.harn != nil {
+			d.w.Count("harness_errors")
+			continue
+		}
+		if j.err != "" {
+			d.w.Violate("gap-regress:run-failed", j.err, in)
+			continue
+		}
+		sets := fileSets(j.state.FileNames())
+		var stC, srv []string
+		for i, f := range created {
+			stC = append(stC, coqKinds(sets[f]))
+			srv = append(srv, casefile.Bool(j.served[i]))
+		}
+		term := fmt.Sprintf("CGap %s %s %s %d %s %d [%s] %s %d%%N [%s]", casefile.Bool(sorted), dirS, kindsS, 2, coqLog(log), j.n,
+			strings.Join(stC, "; "), casefile.NList(j.sizes), c.Limit, strings.Join(srv, "; "))
+		d.w.Add(term, "retention-crash-newer-gone-older-served", j.n > 0 && j.n < len(log), in,
+			map[string]any{"sizes_reported_after_restart": j.sizes, "listed_after_restart_and_next_pass": j.after, "served": j.served})
+	}
+	d.w.Count("gap_regress_histories")
 }
